@@ -207,14 +207,23 @@ def r08_3(q, R, spec):
             c = calls[0]
             args = [nz.term(a) for a in c["args"]]
             got = [U.show(a) for a in args]
-            elem_arg = H.peel(c["args"][1], tries=False)
             ok = (args == [U.parse(s, env) for s in sm["call"]] and nz.term(fors[0]["iter"]) == U.parse(sm["over"], env)
                   and any(x is c for x in H.walk(fors[0]["body"])) and U.cond_terms(nz, fors[0]["body"], c) == []
-                  and U.is_tried(mb["body"], c) and elem_arg.get("k") == "try"
+                  and U.is_tried(mb["body"], c) and _tried_value(mb["body"], c["args"][1])
                   and len(U.mutations_of(mb["body"], res[1])) == 0)
         R.inst(rid, "map_with_key_from_result_iter:every-element-and-error", ok, sp=mb["sp"],
                expect="for child in iter { add_child(&mut map, child?)?; } Ok(map)", got=got)
     R.floor(rid, 4 + 1 + 2 + 1)
+
+
+def _tried_value(root, e, depth=0):
+    """`e` is `x?` or a local bound by `let v = x?;` (the element's error is passed on before the element is used)."""
+    e = H.peel(e, tries=False)
+    if e.get("k") == "try":
+        return True
+    l = H.local_of(e)
+    init = H.let_init_of(root, l[0]) if l and depth < 4 else None
+    return init is not None and _tried_value(root, init, depth + 1)
 
 
 def _outer_ctx(root, node):
